@@ -1169,6 +1169,29 @@ func (fg *FuncGen) finishLoops() {
 	sort.Slice(lis, func(i, j int) bool { return lis[i].ordinal < lis[j].ordinal })
 	for _, li := range lis {
 		b := li.header
+		// C15: the iteration order of a map is the one source of nondeterminism in sequential Go; a loop over a
+		// map must carry an invariant (tagged C15) that ties what it has computed to the SET of members visited
+		for _, in := range b.Instrs {
+			if nx, ok := in.(*ssa.Next); ok && !nx.IsString {
+				has := false
+				if li.spec != nil {
+					for _, inv := range li.spec.Invariants {
+						for _, t := range inv.Tags {
+							if t == "C15" {
+								has = true
+							}
+						}
+					}
+				}
+				goal := "false"
+				if has {
+					goal = "true"
+				}
+				fg.obls = append(fg.obls, &Obligation{Name: fmt.Sprintf("%s/order.loop%d", shortKey(fg.key), li.ordinal), Kind: "order", Func: fg.key, Tags: []string{"C15"},
+					Guard: "true", Goal: goal, Expect: "unsat", Block: -2, Via: -1, Pos: fg.g.pos(li.pos),
+					Text: "loop over a map carries an invariant (tagged C15) that determines its effect from the set of members visited, whatever the order"})
+			}
+		}
 		for _, p := range b.Preds {
 			if !fg.isBackEdge(p, b) {
 				continue
